@@ -8,33 +8,24 @@ Lemma builtin_scalar_complete n v :
    else if str_eqb n (s "String") then (match v with VString _ _ => true | _ => false end)
    else if str_eqb n (s "Boolean") then (match v with VBool _ _ => true | _ => false end)
    else if str_eqb n (s "ID") then (match v with VString _ _ | VInt _ _ => true | _ => false end)
-   else true) = true ->
-  builtin_scalar_ok n v = true.
+   else no_vars v) = true ->
+  builtin_scalar_ok n v = true /\ (if is_builtin_scalar_name n then [] else vars_in_value v) = [].
 Proof.
-  unfold builtin_scalar_ok.
+  unfold builtin_scalar_ok, is_builtin_scalar_name.
   destruct (str_eqb n (s "Boolean")) eqn:E1.
-  { apply str_eqb_eq in E1. subst n. cbn. destruct v; try reflexivity; discriminate. }
-  destruct (str_eqb n (s "Int")) eqn:E2; [destruct v; try reflexivity; try discriminate; intros H; rewrite parses_as_i32_int32; exact H|].
-  destruct (str_eqb n (s "Float")) eqn:E3; [destruct v; try reflexivity; discriminate|].
-  destruct (str_eqb n (s "String")) eqn:E4; [destruct v; try reflexivity; discriminate|].
-  destruct (str_eqb n (s "ID")) eqn:E5; [destruct v; try reflexivity; discriminate|].
-  reflexivity.
+  { apply str_eqb_eq in E1. subst n. cbn. destruct v; intros H; try discriminate; split; reflexivity. }
+  destruct (str_eqb n (s "Int")) eqn:E2.
+  { cbn [orb]. destruct v; intros H; try discriminate; split; try reflexivity. rewrite parses_as_i32_int32. exact H. }
+  destruct (str_eqb n (s "Float")) eqn:E3; [cbn [orb]; destruct v; intros H; try discriminate; split; reflexivity|].
+  destruct (str_eqb n (s "String")) eqn:E4; [cbn [orb]; destruct v; intros H; try discriminate; split; reflexivity|].
+  destruct (str_eqb n (s "ID")) eqn:E5; [cbn [orb]; destruct v; intros H; try discriminate; split; reflexivity|].
+  cbn [orb]. intros H. split; [reflexivity | apply vars_nil_no_vars; exact H].
 Qed.
 
 Lemma existsb_forallb_negb {A} (f : A -> bool) l : existsb f l = true -> forallb (fun x => negb (f x)) l = false.
 Proof.
   induction l as [|a l IH]; cbn [forallb existsb]; [discriminate|].
   destruct (f a); cbn [negb andb orb]; [reflexivity | exact IH].
-Qed.
-
-(** unique definitions: looking a name up returns the definition we already hold *)
-Lemma arg_named_unique l a :
-  NoDup (map (fun x => iname (iv_name x)) l) -> In a l -> arg_named l (iname (iv_name a)) = Some a.
-Proof.
-  unfold arg_named. induction l as [|x l IH]; intros Hnd Hin; [contradiction|]. cbn [find map] in *.
-  inversion Hnd as [|? ? Hx Hl]; subst. destruct Hin as [->|Hin]; [rewrite str_eqb_refl; reflexivity|].
-  destruct (str_eqb (iname (iv_name x)) (iname (iv_name a))) eqn:E; [|apply IH; assumption].
-  exfalso. apply Hx. apply str_eqb_eq in E. rewrite E. apply (in_map (fun x => iname (iv_name x))). exact Hin.
 Qed.
 
 Lemma each_field_In vo fields fs k fv :
@@ -46,18 +37,17 @@ Proof.
   injection Heq as -> ->. destruct (arg_named fields (iname k)) as [fd|]; [|discriminate]. exists fd. split; [reflexivity | exact H1].
 Qed.
 
-Lemma look_field_none cv ef fs : look_field cv ef fs = None -> ~ In (iname (iv_name ef)) (keys_of fs).
+Lemma expected_ty_nonvar d v : (forall x q, v <> VVar x q) -> expected_ty d v = iv_type d.
+Proof. intros H. unfold expected_ty. destruct (iv_type d), v; try reflexivity. exfalso. eapply H. reflexivity. Qed.
+Lemma value_ok_nonvar b doc v t : value_ok b doc v t = true -> forall x q, v <> VVar x q.
+Proof. rewrite value_ok_eq. intros H x q ->. discriminate. Qed.
+
+Lemma known_of_named defs kv ad : arg_named defs (iname (fst kv)) = Some ad -> known defs kv = true.
 Proof.
-  intros H Hin. apply mem_In in Hin. rewrite <- (look_field_some cv ef fs), H in Hin. discriminate.
+  intros H. apply arg_named_some in H as [Hin Hn]. unfold known. apply existsb_exists. exists ad. split; [exact Hin | apply str_eqb_eq; exact Hn].
 Qed.
-Lemma look_field_some_In cv ef fs es :
-  look_field cv ef fs = Some es -> exists k fv, In (k, fv) fs /\ iname (iv_name ef) = iname k /\ es = cv fv (iv_type ef).
-Proof.
-  induction fs as [|[k fv] r IH]; [discriminate|]. cbn [look_field].
-  destruct (str_eqb (iname (iv_name ef)) (iname k)) eqn:E.
-  - intros H. injection H as <-. exists k, fv. split; [left; reflexivity|]. split; [apply str_eqb_eq; exact E | reflexivity].
-  - intros H. destruct (IH H) as [k' [fv' [Hin Hrest]]]. exists k', fv'. split; [right; exact Hin | exact Hrest].
-Qed.
+Lemma forallb_filter_length {A} (p : A -> bool) l : forallb p l = true -> length (filter p l) = length l.
+Proof. induction l as [|a l IH]; cbn [forallb filter length]; [reflexivity|]. destruct (p a); cbn [andb length]; [intros H; rewrite IH; auto | discriminate]. Qed.
 
 Section ValuesComplete.
   Variable doc : tsdoc.
@@ -87,34 +77,45 @@ Section ValuesComplete.
     unfold all_input_field_lists. apply in_flat_map. exists (TDInput d p n ds fields kw). split; [exact Ht | left; reflexivity].
   Qed.
 
-  Lemma input_object_complete (cv : value -> ty -> list cerr) (vo : value -> ty -> bool) fields fs :
+  (** the loop over definitions, shared by input-object literals and argument lists *)
+  Lemma entries_complete (vo : value -> ty -> bool) (defs : list inputvaldef) (al : list (ident * value)) :
+    NoDup (map (fun a => iname (iv_name a)) defs) ->
+    (forall fd, In fd defs -> input_ty (iv_type fd)) ->
+    Forall (fun kv => forall t, input_ty t -> vo (snd kv) t = true -> check_value doc (snd kv) t = []) al ->
+    (forall k fv, In (k, fv) al -> exists fd, arg_named defs (iname k) = Some fd /\ vo fv (iv_type fd) = true) ->
+    (forall k fv t, In (k, fv) al -> vo fv t = true -> forall x q, fv <> VVar x q) ->
+    (forall d, In d defs -> occ_errs (check_value doc) d al = []) /\
+    list_sum (map (fun d => occ_count (iname (iv_name d)) al) defs) = length al.
+  Proof.
+    intros Hnd Hity HIH Hall Hnv. split.
+    - intros d Hd. apply occ_errs_nil. intros k fv Hin Hname.
+      destruct (Hall k fv Hin) as [fd [Hfd Hv]].
+      rewrite <- Hname, (arg_named_unique defs d Hnd Hd) in Hfd. injection Hfd as <-.
+      rewrite (expected_ty_nonvar d fv (Hnv k fv _ Hin Hv)).
+      rewrite Forall_forall in HIH. apply (HIH (k, fv) Hin); [apply Hity; exact Hd | exact Hv].
+    - rewrite (occ_sum_known defs al Hnd). apply forallb_filter_length. apply forallb_forall. intros [k fv] Hin.
+      destruct (Hall k fv Hin) as [fd [Hfd _]]. apply (known_of_named defs (k, fv) fd). exact Hfd.
+  Qed.
+
+  Lemma input_object_complete (vo : value -> ty -> bool) fields fs :
     NoDup (map (fun a => iname (iv_name a)) fields) ->
     (forall fd, In fd fields -> input_ty (iv_type fd)) ->
-    Forall (fun kv => forall t, input_ty t -> vo (snd kv) t = true -> cv (snd kv) t = []) fs ->
-    nodup_str (keys_of fs) = true -> each_field vo fields fs = true ->
+    Forall (fun kv => forall t, input_ty t -> vo (snd kv) t = true -> check_value doc (snd kv) t = []) fs ->
+    (forall k fv t, In (k, fv) fs -> vo fv t = true -> forall x q, fv <> VVar x q) ->
+    each_field vo fields fs = true ->
     forallb (fun fd => negb (is_required fd) || existsb (fun kv => str_eqb (iname (fst kv)) (iname (iv_name fd))) fs) fields = true ->
-    fst (fst (input_object_check cv fields fs)) = [] /\ snd (fst (input_object_check cv fields fs)) = true.
+    fst (fst (input_object_check (check_value doc) fields fs)) = [] /\ snd (fst (input_object_check (check_value doc) fields fs)) = true.
   Proof.
-    intros Hnd Hity HIH Hkeys Heach Hreq. apply nodup_str_NoDup in Hkeys. unfold input_object_check. cbn [fst snd]. split.
-    - apply flat_map_nil. intros ef Hef. destruct (look_field cv ef fs) as [es|] eqn:L; [|reflexivity].
-      apply look_field_some_In in L as [k [fv [Hin [Hname ->]]]].
-      destruct (each_field_In vo fields fs k fv Heach Hin) as [fd [Hfd Hv]].
-      rewrite <- Hname, (arg_named_unique fields ef Hnd Hef) in Hfd. injection Hfd as <-.
-      rewrite Forall_forall in HIH. apply (HIH (k, fv) Hin); [apply Hity; exact Hef | exact Hv].
+    intros Hnd Hity HIH Hnv Heach Hreq.
+    destruct (entries_complete vo fields fs Hnd Hity HIH (fun k fv Hin => each_field_In vo fields fs k fv Heach Hin) Hnv) as [Hocc Hsum].
+    unfold input_object_check. cbn [fst snd]. split.
+    - apply flat_map_nil. exact Hocc.
     - apply andb_true_iff. split.
-      + apply forallb_forall. intros ef Hef. destruct (look_field cv ef fs) eqn:L; [reflexivity|].
-        apply look_field_none in L. rewrite forallb_forall in Hreq. specialize (Hreq ef Hef). rewrite iv_required_is.
-        apply orb_true_iff in Hreq as [H|H]; [exact H|]. exfalso. apply L. apply existsb_exists in H as [kv [Hkv He]].
-        apply str_eqb_eq in He. rewrite <- He. apply (in_map (fun kv => iname (fst kv))). exact Hkv.
-      + apply negb_true_iff. apply Nat.ltb_ge.
-        assert (Hcount : length (filter (fun ef => is_some (look_field cv ef fs)) fields)
-                         = length (filter (fun n => mem n (keys_of fs)) (map (fun a => iname (iv_name a)) fields))).
-        { rewrite <- filter_map_comm, map_length. f_equal. apply filter_ext. intros a. apply look_field_some. }
-        rewrite Hcount. replace (length fs) with (length (keys_of fs)) by apply map_length.
-        apply NoDup_incl_length; [exact Hkeys|]. intros k Hk. apply filter_In. split; [|apply mem_In; exact Hk].
-        unfold keys_of in Hk. apply in_map_iff in Hk as [[k' fv] [<- Hin]]. cbn [fst].
-        destruct (each_field_In vo fields fs k' fv Heach Hin) as [fd [Hfd _]]. apply arg_named_some in Hfd as [Hfdin Hn].
-        rewrite <- Hn. apply (in_map (fun a => iname (iv_name a))). exact Hfdin.
+      + apply forallb_forall. intros ef Hef. rewrite forallb_forall in Hreq. specialize (Hreq ef Hef). rewrite iv_required_is.
+        apply orb_true_iff in Hreq as [H|H]; [apply orb_true_iff; right; exact H|]. apply orb_true_iff. left.
+        apply Nat.ltb_lt. apply occ_count_pos. apply existsb_exists in H as [kv [Hkv He]]. apply str_eqb_eq in He.
+        rewrite <- He. apply (in_map (fun kv => iname (fst kv))). exact Hkv.
+      + apply negb_true_iff. apply Nat.ltb_ge. rewrite Hsum. lia.
   Qed.
 
   Lemma builtin_scalar_null n p : builtin_scalar_ok n (VNull p) = true.
@@ -132,14 +133,15 @@ Section ValuesComplete.
     destruct (lookup_t doc (iname n)) as [td|] eqn:L; [|discriminate].
     apply lookup_t_In in L as [Lin Ln]. destruct td; try discriminate.
     - intros H. unfold tn in Ln. cbn [typedef_name] in Ln. rewrite Ln.
-      assert (Hb : builtin_scalar_ok (iname n) v = true).
-      { destruct v; try (apply builtin_scalar_complete; exact H); apply builtin_scalar_null. }
-      rewrite Hb. reflexivity.
+      assert (Hb : builtin_scalar_ok (iname n) v = true /\ (if is_builtin_scalar_name (iname n) then [] else vars_in_value v) = []).
+      { destruct v; try (apply builtin_scalar_complete; exact H).
+        split; [apply builtin_scalar_null | destruct (is_builtin_scalar_name (iname n)); reflexivity]. }
+      destruct Hb as [Hb1 Hb2]. rewrite Hb1, Hb2. reflexivity.
     - destruct v; try discriminate; [reflexivity|]. intros H. rewrite (existsb_forallb_negb _ _ H). reflexivity.
-    - destruct v; try discriminate; [reflexivity|]. intros H. apply andb_true_iff in H as [H H3]. apply andb_true_iff in H as [H1 H2].
-      destruct (input_object_complete (check_value doc) (value_ok true doc) fields fs
+    - destruct v; try discriminate; [reflexivity|]. intros H. apply andb_true_iff in H as [H2 H3].
+      destruct (input_object_complete (value_ok true doc) fields fs
                   (input_fields_nodup' _ _ _ _ _ _ Lin) (fun fd Hfd => input_field_input_ty _ _ _ _ _ _ fd Lin Hfd)
-                  (HIH _ fs eq_refl) H1 H2 H3) as [A B].
+                  (HIH _ fs eq_refl) (fun k fv t _ Hvo => value_ok_nonvar true doc fv t Hvo) H2 H3) as [A B].
       destruct (input_object_check (check_value doc) fields fs) as [[errs ok] info]. cbn [fst snd] in A, B. subst. reflexivity.
   Qed.
 
@@ -155,23 +157,14 @@ Section ValuesComplete.
       intros p' fs' Heq. injection Heq as <- <-. exact H.
   Qed.
 
-  Lemma find_arg_some_In n al v : find_arg n al = Some v -> exists k, In (k, v) al /\ n = iname k.
-  Proof.
-    induction al as [|[k v'] r IH]; [discriminate|]. cbn [find_arg]. destruct (str_eqb n (iname k)) eqn:E.
-    - intros H. injection H as <-. exists k. split; [left; reflexivity | apply str_eqb_eq; exact E].
-    - intros H. destruct (IH H) as [k' [Hin Hn]]. exists k'. split; [right; exact Hin | exact Hn].
-  Qed.
-
   Lemma check_arguments_complete ppos pname kind (a : directive) (d : directivedef) :
     NoDup (map (fun x => iname (iv_name x)) (args_of (dd_args d))) ->
     (forall ad, In ad (args_of (dd_args d)) -> input_ty (iv_type ad)) ->
-    NoDup (keys_of (app_args a)) ->
     (match dir_args a with Some x => args_list x <> [] | None => True end) ->
     app_args_ok true doc a d = true ->
     check_arguments doc ppos pname kind (dir_args a) (opt_list (dd_args d)) = [].
   Proof.
-    intros Hnd Hity Hkeys Hne. revert Hnd Hity Hkeys.
-    intros Hnd Hity Hkeys.
+    intros Hnd Hity Hne.
     unfold app_args_ok. rewrite opt_list_args_of. fold (args_of (dd_args d)).
     set (defs := args_of (dd_args d)) in *. intros H. apply andb_true_iff in H as [Hgiven Hreq].
     rewrite forallb_forall in Hgiven, Hreq.
@@ -181,30 +174,23 @@ Section ValuesComplete.
     assert (Hknown : forall k v, In (k, v) al -> exists ad, arg_named defs (iname k) = Some ad /\ value_ok true doc v (iv_type ad) = true).
     { intros k v Hin. specialize (Hgiven (k, v) Hin). cbn [fst snd] in Hgiven.
       destruct (arg_named defs (iname k)) as [ad|]; [exists ad; split; [reflexivity | exact Hgiven] | discriminate]. }
+    assert (HIH : Forall (fun kv : ident * value => forall t, input_ty t -> value_ok true doc (snd kv) t = true -> check_value doc (snd kv) t = []) al).
+    { apply Forall_forall. intros kv _ t. apply value_complete. }
+    destruct (entries_complete (value_ok true doc) defs al Hnd Hity HIH Hknown (fun k fv t _ Hvo => value_ok_nonvar true doc fv t Hvo)) as [Hocc Hsum].
     assert (Herrs : flat_map (arg_errs doc al apos) defs = []).
-    { apply flat_map_nil. intros ad Had. unfold arg_errs. destruct (find_arg (iname (iv_name ad)) al) as [v|] eqn:F.
-      - apply find_arg_some_In in F as [k [Hin Hn]]. destruct (Hknown k v Hin) as [ad' [Had' Hv]].
-        rewrite <- Hn, (arg_named_unique defs ad Hnd Had) in Had'. injection Had' as <-. apply value_complete; [apply Hity; exact Had | exact Hv].
-      - specialize (Hreq ad Had). rewrite iv_required_is. apply orb_true_iff in Hreq as [Hr|Hr].
-        + apply negb_true_iff in Hr. rewrite Hr. reflexivity.
-        + exfalso. apply existsb_exists in Hr as [[k v] [Hkv He]]. cbn [fst] in He. apply str_eqb_eq in He.
-          assert (Hs : is_some (find_arg (iname (iv_name ad)) al) = true).
-          { rewrite find_arg_some. apply mem_In. rewrite <- He. apply (in_map (fun kv => iname (fst kv)) al (k, v)). exact Hkv. }
-          rewrite F in Hs. discriminate. }
-    assert (Htail : flat_map (fun kv : ident * value =>
-                       if forallb (fun d0 => negb (str_eqb (iname (iv_name d0)) (iname (fst kv)))) defs
-                       then [err (UnknownArgument (iname (fst kv))) (ipos (fst kv))] else []) al = []).
-    { apply flat_map_nil. intros [k v] Hin. cbn [fst]. destruct (Hknown k v Hin) as [ad [Had _]].
-      apply arg_named_some in Had as [Hadin Hn].
-      rewrite (existsb_forallb_negb (fun d0 => str_eqb (iname (iv_name d0)) (iname k)) defs); [reflexivity|].
-      apply existsb_exists. exists ad. split; [exact Hadin | apply str_eqb_eq; exact Hn]. }
+    { apply flat_map_nil. intros ad Had. unfold arg_errs. destruct (find_arg (iname (iv_name ad)) al) as [v|] eqn:F; [apply Hocc; exact Had|].
+      specialize (Hreq ad Had). rewrite iv_required_is. apply orb_true_iff in Hreq as [Hr|Hr].
+      + apply negb_true_iff in Hr. rewrite Hr. reflexivity.
+      + exfalso. apply existsb_exists in Hr as [[k v] [Hkv He]]. cbn [fst] in He. apply str_eqb_eq in He.
+        assert (Hs : is_some (find_arg (iname (iv_name ad)) al) = true).
+        { rewrite find_arg_some. apply mem_In. rewrite <- He. apply (in_map (fun kv => iname (fst kv)) al (k, v)). exact Hkv. }
+        rewrite F in Hs. discriminate. }
     subst al apos. destruct (dir_args a) as [ar|] eqn:Ea; destruct defs as [|d0 defs'] eqn:Ed.
-    - (* arguments given, none declared: the first given argument is unknown *)
-      exfalso. destruct (args_list ar) as [|[k v] r] eqn:Eal.
+    - exfalso. destruct (args_list ar) as [|[k v] r] eqn:Eal.
       + exact (Hne eq_refl).
       + destruct (Hknown k v (or_introl eq_refl)) as [ad [Had _]]. discriminate.
-    - rewrite Herrs, Htail. cbn [app]. destruct (Nat.ltb _ _); reflexivity.
+    - rewrite Herrs, Hsum. cbn [app]. rewrite Nat.ltb_irrefl. reflexivity.
     - reflexivity.
-    - rewrite Herrs. cbn [app length]. destruct (Nat.ltb _ 0) eqn:E; [apply Nat.ltb_lt in E; lia | reflexivity].
+    - rewrite Herrs, Hsum. cbn [app length]. reflexivity.
   Qed.
 End ValuesComplete.
